@@ -6,7 +6,10 @@ closers are real.  It is a workload generator, not an oracle: documents are
 admitted by a precondition (parse + exact round trip on the tree under test).
 """
 
-CMD_NAMES = ['foo', 'bar', 'textit', 'emph', 'x', 'cite', 'ref', 'qq']
+CMD_NAMES = ['foo', 'bar', 'textit', 'emph', 'x', 'cite', 'ref', 'qq',
+             # commands the reader has a zero-argument signature for
+             'noindent', 'cap', 'cup', 'in', 'notin', 'infty', 'foo', 'x']
+PLAIN_CMD_NAMES = ['foo', 'bar', 'textit', 'emph', 'x', 'cite', 'ref', 'qq']
 ENV_NAMES = ['e', 'env', 'center', 'quote', 'tabular', 'document', 'e', 'figure*', 'e']
 MATH_ENVS = ['equation', 'align', 'align*', 'equation*', 'gather', 'math', 'alignat', 'array', 'displaymath',
              'eqnarray', 'eqnarray*', 'flalign', 'flalign*', 'gather*', 'multline', 'multline*', 'split']
@@ -428,7 +431,8 @@ def generate(rng, profile=None, size=None, restricted=False):
         kinds = ['text', 'esc', 'linebreak', 'cmd', 'env', 'group']
         if rng.random() < 0.3:
             kinds.append('comment')
-        g = Gen(rng, kinds, size, rng.randrange(2, 7), ws=ws)
+        # no zero-argument-signature commands here: their '[..]' is text, not an argument
+        g = Gen(rng, kinds, size, rng.randrange(2, 7), ws=ws, names=PLAIN_CMD_NAMES)
         if profile in ('deep', 'alternate'):
             g.deep_narrow(rng.randrange(3, 20), profile == 'alternate')
         else:
